@@ -142,7 +142,13 @@ pub struct OneRun {
 /// One execution in *this* process (used inside the forked child only).
 pub fn run_one(prop: &Property, plan: &Plan, tape: dsim::Tape) -> OneRun {
     let out = exec::run(plan, tape);
-    let co = (prop.check)(plan, &out);
+    let mut co = (prop.check)(plan, &out);
+    if out.outcome == dsim::Outcome::StepCap {
+        // no scenario comes near the cap on a healthy tree: a task is looping through seam calls
+        // (e.g. retrying a failing system call forever) without the simulated clock getting anywhere
+        let busiest = out.world.tasks.iter().max_by_key(|t| t.ops).map(|t| format!("{}/{} ({} seam operations)", out.world.procs[t.proc].name, t.name, t.ops)).unwrap_or_default();
+        co.violate(prop.id, "scheduler_step_cap", format!("{}|scheduler_step_cap", prop.id), format!("the execution took {} scheduler steps and reached only {:.3} simulated s: a task is spinning through seam calls; busiest task: {}", out.world.steps, out.world.now as f64 / 1e9, busiest));
+    }
     OneRun { out, co }
 }
 
